@@ -1236,6 +1236,21 @@ func run(r *hk.Run) {
 		}
 	}
 
+	// ---- (3b) long lists: the number of rules / descriptions is bounded only by the two-octet IE length, so a
+	// result container sized from a "usual" count must not be overrun or silently cut
+	for _, cnt := range []int{5, 9, 17, 33, 65, 100} {
+		var q nasType.QoSRules
+		for k := 0; k < cnt; k++ {
+			q = append(q, x.randRule(true))
+		}
+		x.rulesM("long-lists", q)
+		var d nasType.QoSFlowDescs
+		for k := 0; k < cnt; k++ {
+			d = append(d, x.randDesc(true))
+		}
+		x.descsM("long-lists", d)
+	}
+
 	// ---- (4) malformed random: mutations of valid encodings, then plain random octets
 	n = r.N(500, 8000)
 	for i := 0; i < n; i++ {
